@@ -61,6 +61,13 @@ def run_dist(ctx, cfg, ranks, tag):
             div = {"line": i + 1, "op": o[i], "impl": c[i], "model": l[i]}
             break
     res["div"] = div
+    if div:
+        # keep the merged trace of a diverging run next to the replay files (input to the model + implementation answers)
+        import shutil
+        d = os.path.join(vlib.REPLAYS, "C02")
+        os.makedirs(d, exist_ok=True)
+        shutil.copy(mo, os.path.join(d, "trace_%s_%d.ops" % (tag, cfg["seed"])))
+        shutil.copy(mc, os.path.join(d, "trace_%s_%d.impl" % (tag, cfg["seed"])))
     res["lines"] = min(len(c), len(l))
     res["commits"] = sum(1 for x in c if x.startswith("commit"))
     res["sample"] = [x for x in c if x.startswith("commit")][:2]
@@ -94,7 +101,8 @@ def run(ctx):
         ranks = rnd.choice([2, 2, 3, 4])
         c.update({"seed": rnd.randrange(1, 1 << 30), "mseed": rnd.randrange(1, 1 << 30), "lps": rnd.choice([4, 6, 8, 9]),
                   "threads": rnd.choice([1, 2, 3]), "thr": rnd.choice([40, 80, 150]), "burst": rnd.choice([0, 20, 100]),
-                  "ckpt": rnd.choice([1, 2, 3, 7, 0]), "period": rnd.choice([0, 10, 1000]), "budget": 3000000})
+                  "ckpt": rnd.choice([1, 2, 3, 7, 0]), "period": rnd.choice([0, 10, 1000])})
+        c.pop("budget", None)
         if c["lps"] < ranks:
             c["lps"] = ranks + 1
         jobs.append((i, c, ranks))
